@@ -230,7 +230,7 @@ func runAlias(path string) {
 				for _, s := range f[4:] {
 					args.Vector = append(args.Vector, math.Float64frombits(u(s)))
 				}
-				shared := 0
+				shared, changed := 0, 0
 				var keep []syz.SearchResult
 				for trial := 0; trial < 40 && shared == 0; trial++ {
 					var r [2]syz.SearchResults
@@ -255,9 +255,32 @@ func runAlias(path string) {
 							}
 						}
 					}
+					// the second caller overwrites what it was handed (its own copies, as far as it knows); the first caller's
+					// results must still read as they did
+					var copies [][]byte
+					for _, x := range r[0].Results {
+						copies = append(copies, append([]byte{}, x.Metadata...))
+					}
+					for _, y := range r[1].Results {
+						for k := range y.Metadata {
+							y.Metadata[k] ^= 0xFF
+						}
+					}
+					for i, x := range r[0].Results {
+						if string(x.Metadata) != string(copies[i]) {
+							changed = 1
+						}
+					}
+					// put the bytes back, so that a shared buffer does not disturb the rest of the run
+					for _, y := range r[1].Results {
+						for k := range y.Metadata {
+							y.Metadata[k] ^= 0xFF
+						}
+					}
 					keep = r[0].Results
 				}
 				fmt.Fprintf(out, "pshared %d\n", shared)
+				fmt.Fprintf(out, "pchanged %d\n", changed)
 				fmt.Fprintf(out, "results %d\n", len(keep))
 				for _, x := range keep {
 					hold("psearch", x.ID, x.Metadata, nil)
